@@ -143,9 +143,8 @@ class _World:
     self.marker = marker
     self.log_methods = mod.methods("ErrorLog")
     self.err_methods = mod.methods("Error")
-    for p in ("traceback",):
-      if p not in self.err_methods:
-        raise AnalysisError(f"Error.{p} not found")
+    if "__eq__" in self.err_methods or "__hash__" in self.err_methods:
+      raise AnalysisError("Error defines __eq__/__hash__: the model compares errors by identity")
 
   def tb(self, frames):
     if frames is None:
